@@ -127,6 +127,26 @@ func (fe *FuncEnc) sortedCalls() []*CallSite {
 	return cs
 }
 
+// matchCalls: call sites answering to name — those of the function itself; only when it has none, those of callees that
+// were inlined (so extracting a helper does not orphan a clause about a call that moved into it).
+func (fe *FuncEnc) matchCalls(name string) []*CallSite {
+	var own, inl []*CallSite
+	for _, cs := range fe.sortedCalls() {
+		if !contains(cs.names, name) {
+			continue
+		}
+		if cs.depth == 0 {
+			own = append(own, cs)
+		} else {
+			inl = append(inl, cs)
+		}
+	}
+	if len(own) > 0 {
+		return own
+	}
+	return inl
+}
+
 func (fe *FuncEnc) findCall(target string) (*CallSite, error) {
 	name := target
 	ord := -1
@@ -134,12 +154,7 @@ func (fe *FuncEnc) findCall(target string) (*CallSite, error) {
 		fmt.Sscanf(target[i+1:], "%d", &ord)
 		name = target[:i]
 	}
-	var ms []*CallSite
-	for _, cs := range fe.sortedCalls() {
-		if contains(cs.names, name) {
-			ms = append(ms, cs)
-		}
-	}
+	ms := fe.matchCalls(name)
 	if len(ms) == 0 {
 		return nil, fmt.Errorf("no call to %s in %s", name, relName(fe.fn))
 	}
@@ -163,12 +178,7 @@ func (fe *FuncEnc) findCalls(target string) ([]*CallSite, error) {
 		}
 		return []*CallSite{cs}, nil
 	}
-	var ms []*CallSite
-	for _, cs := range fe.sortedCalls() {
-		if contains(cs.names, target) {
-			ms = append(ms, cs)
-		}
-	}
+	ms := fe.matchCalls(target)
 	if len(ms) == 0 {
 		return nil, fmt.Errorf("no call to %s in %s", target, relName(fe.fn))
 	}
@@ -265,8 +275,8 @@ func (fr *Frame) encodeCall(c *ssa.Call, st *State) {
 		args = append(args, fr.val(a))
 	}
 	var cs *CallSite
-	if fr.depth == 0 {
-		cs = &CallSite{instr: c, names: callNames(c), reach: st.alive, args: args, recv: recv, pre: st.clone(), block: c.Block()}
+	{
+		cs = &CallSite{instr: c, names: callNames(c), reach: st.alive, args: args, recv: recv, pre: st.clone(), block: c.Block(), depth: fr.depth}
 		if !cc.IsInvoke() && cc.StaticCallee() != nil && cc.StaticCallee().Signature.Recv() != nil && len(args) > 0 {
 			cs.recv = &args[0]
 		}
